@@ -1733,6 +1733,12 @@ def narrow_cast(a, dtype):
     rnd_T(0) = 0 only: a value stored in a narrower type is not the value that was given.  Integer targets truncate."""
     name = dtype.name if isinstance(dtype, (ModuleRef, Builtin)) else (dtype if isinstance(dtype, str) else None)
     if dtype is None or dtype is float or name in ("float", "jnp.float64", "jnp.float_", "np.float64"):
+        if isinstance(a, SArr) and a.dtype == "int" and dtype is not None:
+            # integers converted to the default float type (float32 unless 64-bit mode is on): exact only below 2**24
+            if "int_to_float" not in _ROUND:
+                _ROUND["int_to_float"] = z3.Function("int_to_default_float", z3.IntSort(), z3.RealSort())
+            cv = _ROUND["int_to_float"]
+            return SArr(a.shape, lambda *i: cv(zint(a.elem(*i))), "real")
         return a
     if name in ("jnp.float32", "jnp.float16", "jnp.bfloat16", "np.float32", "np.float16"):
         if name not in _ROUND:
